@@ -78,6 +78,26 @@ Proof.
 Qed.
 Print Assumptions C14_trace_is_the_log.
 
+(* What a command is called with.  The final argument list of every proxy is the concatenation, in order, of what its
+   arguments contribute (strings: themselves) ... *)
+Theorem C14_args_are_children_values :
+  forall final K d l lg strs, spec_list final K d l = (lg, inr strs) -> strs = flat_map (contributes final K d) l.
+Proof. exact args_are_children_values. Qed.
+Print Assumptions C14_args_are_children_values.
+
+(* ... and a bracketed sub-command contributes exactly its reply (nothing for noReply), unless its command tagged the
+   message 'ignored' (Utilities.ignore: msg.tag('ignored'); irc.noReply()), in which case it contributes nothing: the
+   tag never outlives the sub-command, so every replying sibling's value reaches the parent.  Together with
+   C14_eval_refines_on_domain / C14_trace_is_the_log (which hold for every [final], tagging ones included) the machine
+   calls each command with exactly the values of its replying children, in order. *)
+Theorem C14_bracket_contributes :
+  forall final K d sub lg strs, too_deep K (S d) = false -> sub <> [] -> strs <> [] ->
+  spec_list final K (S d) sub = (lg, inr strs) ->
+  forall v, fr_res (final strs) = SVal v ->
+  contributes final K d (ASub sub) = if fr_tag (final strs) then [] else opt_list v.
+Proof. exact bracket_contributes. Qed.
+Print Assumptions C14_bracket_contributes.
+
 (* the post-order enumeration itself: sorted for [before] (so duplicate-free) and of length subs + 1 *)
 Theorem C14_postorder :
   forall tokens, StronglySorted before (postorder tokens) /\ length (postorder tokens) = S (subs tokens) /\
